@@ -3,7 +3,7 @@ from props import _ops, _proc
 import dsgcase
 
 ID = 'C15'
-CLAUSES = {'fast-decode-differs-from-model', 'fixed-value-not-respected', 'corrected-vector-out-of-range', 'fixed-rows-are-not-the-restriction-of-the-unfixed-rows', 'free-does-not-restore', 'fix-accepts-out-of-range-value',
+CLAUSES = {'imputation-ratio-is-not-the-quotient', 'fast-decode-differs-from-model', 'fixed-value-not-respected', 'corrected-vector-out-of-range', 'fixed-rows-are-not-the-restriction-of-the-unfixed-rows', 'free-does-not-restore', 'fix-accepts-out-of-range-value',
            'rejected-fix-changed-state', 'fixed-value-not-recorded', 'fixed-variable-still-in-design-vector',
            'decode-differs-from-fresh-processor', 'statistics-differ-from-fresh-processor', 'enumeration-differs-from-fresh-processor',
            'operation-raises'}
